@@ -203,20 +203,21 @@ def gen_strategy(rng):
 
 
 def generate(cls, rng):
+    from dsim import depth as DP
     knobs = dict(off_size=rng.choice([8, 8, 1, 2, 3]),
                  str_size=rng.choice([8, 8, 1, 2]),
                  tz=rng.choice(TZ_SETTINGS),
                  bundle=rng.random() < 0.8)
     if cls in ("threads", "deep"):
         names = gen_names(rng, small=True)
-        nthreads = rng.choice([2, 2, 3, 4])
+        nthreads = rng.choice(DP.pick([2, 2, 3, 4], [3, 4, 4, 5]))
         if rng.random() < 0.5:
             # focused: every thread asks for the same few keys
             focus = [gen_request(rng, names, "s0") for _ in range(2)]
             threads = []
             for _ in range(nthreads):
                 prog = []
-                for _ in range(rng.randrange(1, 6)):
+                for _ in range(rng.randrange(1, DP.pick(6, 12))):
                     r = rng.random()
                     if r < 0.7:
                         op = list(rng.choice(focus))
@@ -228,7 +229,8 @@ def generate(cls, rng):
                         prog.append(["use", rng.choice(["s0", "s1"])])
                 threads.append(prog)
         else:
-            threads = [gen_thread_prog(rng, names, rng.randrange(1, 10))
+            threads = [gen_thread_prog(rng, names,
+                                       rng.randrange(1, DP.pick(10, 20)))
                        for _ in range(nthreads)]
         return dict(knobs=knobs, threads=threads,
                     sched=dict(strategy=gen_strategy(rng),
@@ -238,7 +240,7 @@ def generate(cls, rng):
     ops = []
     slots = ["s%d" % i for i in range(6)]
     faults_on = rng.random() < 0.5
-    for _ in range(rng.randrange(10, 60)):
+    for _ in range(rng.randrange(10, DP.pick(60, 200))):
         r = rng.random()
         slot = rng.choice(slots)
         if r < 0.50:
